@@ -331,7 +331,7 @@ FIELDS = {"ld": ("r",), "st": ("a",), "xchg": ("a", "r"), "cas": ("a", "b", "r")
           "trylock": ("r",)}
 
 
-def normalize(events, drop_ops=("end", "spawn", "blocked"), keep_vars=None, extra_fields=()):
+def normalize(events, drop_ops=("end", "spawn", "blocked", "replay_diverged", "solo_begin", "solo_end", "solo_skip"), keep_vars=None, extra_fields=()):
     """Uniform records for TLC: every event has t, op, var, a, b, r (missing -> "-"), plus call fields."""
     out = []
     for e in events:
